@@ -503,7 +503,7 @@ dump_line_numbers (FILE * f, program_t * prog)
   unsigned char *li;
   int addr;
   int sz;
-  short s;
+  unsigned short s;
 
   if (!prog->line_info)
     {
